@@ -28,13 +28,45 @@ pub enum PKind {
     Object,
     /// array of objects (never acceptable)
     ObjArray,
+    /// documented unit enum: oneOf of single-value string enums (scalar)
+    DocEnum,
+    /// oneOf of a string and an object (not scalar)
+    OneOfMixed,
+    /// reference to a named string enum (scalar)
+    RefScalar,
+    /// reference to a named object type (not scalar)
+    RefObject,
+    /// Option of a referenced scalar: allOf [ref] + nullable (scalar)
+    NullableRef,
 }
 
 impl PKind {
     pub fn is_scalar(&self) -> bool {
-        matches!(self, PKind::Str | PKind::Int | PKind::Bool)
+        matches!(self, PKind::Str | PKind::Int | PKind::Bool | PKind::DocEnum | PKind::RefScalar | PKind::NullableRef)
     }
-    fn schema(&self) -> Schema {
+    fn schema(&self, gen: &mut schemars::gen::SchemaGenerator) -> Schema {
+        let from_json = |v: serde_json::Value| -> Schema { serde_json::from_value(v).unwrap() };
+        match self {
+            PKind::DocEnum => {
+                return from_json(serde_json::json!({"oneOf": [
+                    {"description": "first", "type": "string", "enum": ["one"]},
+                    {"description": "second", "type": "string", "enum": ["two"]}]}))
+            }
+            PKind::OneOfMixed => return from_json(serde_json::json!({"oneOf": [{"type": "string"}, {"type": "object", "properties": {"a": {"type": "string"}}}]})),
+            PKind::RefScalar | PKind::NullableRef => {
+                gen.definitions_mut().insert("VerifNamedEnum".into(), from_json(serde_json::json!({"type": "string", "enum": ["x", "y"]})));
+                return if *self == PKind::RefScalar {
+                    from_json(serde_json::json!({"$ref": "#/components/schemas/VerifNamedEnum"}))
+                } else {
+                    from_json(serde_json::json!({"allOf": [{"$ref": "#/components/schemas/VerifNamedEnum"}], "nullable": true}))
+                };
+            }
+            PKind::RefObject => {
+                gen.definitions_mut().insert("VerifNamedObject".into(), from_json(serde_json::json!({"type": "object", "properties": {"inner": {"type": "string"}}})));
+                return from_json(serde_json::json!({"$ref": "#/components/schemas/VerifNamedObject"}));
+            }
+            _ => {}
+        }
         fn ty(t: InstanceType) -> SchemaObject {
             SchemaObject {
                 instance_type: Some(SingleOrVec::Single(Box::new(t))),
@@ -68,20 +100,21 @@ impl PKind {
             PKind::IntArray => arr(ty(InstanceType::Integer)),
             PKind::Object => obj(),
             PKind::ObjArray => arr(obj()),
+            _ => unreachable!(),
         })
     }
 }
 
 pub type ParamSpec = Vec<(String, PKind)>;
 
-fn object_schema(spec: &ParamSpec) -> Schema {
+fn object_schema(spec: &ParamSpec, gen: &mut schemars::gen::SchemaGenerator) -> Schema {
     let mut s = SchemaObject {
         instance_type: Some(SingleOrVec::Single(Box::new(InstanceType::Object))),
         ..Default::default()
     };
     let mut o = ObjectValidation::default();
     for (n, k) in spec {
-        o.properties.insert(n.clone(), k.schema());
+        o.properties.insert(n.clone(), k.schema(gen));
         o.required.insert(n.clone());
     }
     s.object = Some(Box::new(o));
@@ -107,8 +140,8 @@ impl JsonSchema for DynPath {
     fn is_referenceable() -> bool {
         false
     }
-    fn json_schema(_: &mut schemars::gen::SchemaGenerator) -> Schema {
-        PATH_SPEC.with(|s| object_schema(&s.borrow()))
+    fn json_schema(g: &mut schemars::gen::SchemaGenerator) -> Schema {
+        PATH_SPEC.with(|s| object_schema(&s.borrow(), g))
     }
 }
 
@@ -146,8 +179,8 @@ impl JsonSchema for DynQuery {
     fn is_referenceable() -> bool {
         false
     }
-    fn json_schema(_: &mut schemars::gen::SchemaGenerator) -> Schema {
-        QUERY_SPEC.with(|s| object_schema(&s.borrow()))
+    fn json_schema(g: &mut schemars::gen::SchemaGenerator) -> Schema {
+        QUERY_SPEC.with(|s| object_schema(&s.borrow(), g))
     }
 }
 
